@@ -391,3 +391,112 @@ def check_order_arbitrary_lists(res, all_lcs, scope) -> int:
           sample={"kernel": lc.name, "array": key, "index": show(ix)} if n % 40 == 1 else None,
         )
   return n
+
+
+def check_ldl_level_schedule(res, db, lcs) -> int:
+  """R-RACE.7 (the host half of the level-scheduled sparse L'DL idiom): `_qLD_acc` is launched once per entry of
+  m.qLD_updates; inside one launch every thread accumulates (atomically) into the row of the dof stored in component 0 of
+  its update triple and reads the row of the dof in component 1. That is schedule-independent only if all rows *written*
+  in one launch belong to one tree depth, so that the rows *read* (deeper dofs) are not written by the same launch.
+  Checked: (kernel) the accumulation address is M_rowadr[update[0]] + j and the rows read are addressed through
+  update[1]; (host, put_model) the triples are grouped by the depth of the variable that becomes component 0."""
+  import ast
+
+  n = 0
+  ks = [lc for lc in lcs if lc.name == "smooth._qLD_acc"]
+  if not ks:
+    res.error("anchor vanished: launch of smooth._qLD_acc")
+    return 0
+  lc = ks[0]
+  upd = [p.name for p in lc.keval.params if p.kind == "array" and "vec3i" in p.dtype]
+  ok_k = False
+  why = "no update-triple parameter"
+  if upd:
+    u = upd[0]
+    comp = lambda t: next((s.args[1].args[0] for s in subterms(t) if s.op == "idx" and isinstance(s.args[0], T) and s.args[0].op == "ld" and s.args[0].args[0] == u and isinstance(s.args[1], T) and s.args[1].op == "c"), None)  # noqa: E731
+    wrote = {comp(a.idx[-1]) for a in lc.keval.accesses if a.is_atomic and a.idx}
+    ok_k = wrote == {0}
+    why = f"atomic accumulation rows are addressed through components {sorted(x for x in wrote if x is not None)} of the update triple"
+  n += 1
+  res.ob(ok_k, "qLD_acc|writes-row-of-component-0", Finding("R-RACE.7", "smooth._qLD_acc|update-triple|written-row", f"_qLD_acc: {why}; the level schedule assumes the accumulated row is that of component 0", lc.ev.loc))
+  fi = db.sm.func("io.put_model")
+  # the dict whose values become m.qLD_updates
+  src = None
+  for node in ast.walk(fi.node):
+    if isinstance(node, ast.Assign) and any(isinstance(t, ast.Attribute) and t.attr == "qLD_updates" for t in node.targets):
+      names = [x.id for x in ast.walk(node.value) if isinstance(x, ast.Name)]
+      src = next((x for x in names if x not in ("tuple", "wp", "sorted", "i", "types")), None)
+  n += 1
+  found = False
+  for node in ast.walk(fi.node):
+    if isinstance(node, ast.Call) and isinstance(node.func, ast.Attribute) and node.func.attr == "append" and isinstance(node.func.value, ast.Call) and isinstance(node.func.value.func, ast.Attribute) and node.func.value.func.attr == "setdefault" and isinstance(node.func.value.func.value, ast.Name) and node.func.value.func.value.id == src:
+      key = node.func.value.args[0]
+      tup = node.args[0] if node.args else None
+      first = tup.elts[0] if isinstance(tup, ast.Tuple) and tup.elts else None
+      found = True
+      okh = isinstance(key, ast.Subscript) and isinstance(first, ast.Name) and isinstance(key.slice, ast.Name) and key.slice.id == first.id
+      res.ob(
+        okh,
+        "put_model|qLD_updates|level-key",
+        Finding("R-RACE.7", "io.put_model|qLD_updates|level-key-not-written-row", f"the L'DL update triples `{ast.unparse(tup) if tup is not None else '?'}` are grouped into launches by `{ast.unparse(key)}`; _qLD_acc accumulates into the row of the first component, so launches must be grouped by the depth of `{first.id if isinstance(first, ast.Name) else '?'}` - otherwise threads of one launch write rows that other threads of the same launch read", f"{fi.file}:{node.lineno}"),
+      )
+  if not found:
+    res.error("anchor vanished: construction of m.qLD_updates in io.put_model")
+  return n
+
+
+def check_branch_chains(res, db) -> int:
+  """R-RACE.8 (the host half of the branch-redundant idiom): `_kinematics_branch`, `_comvel_branch` and `_cacc_branch` run
+  one thread per leaf and recompute the whole root-to-leaf chain, so a thread only reads parent cells it wrote itself (or
+  that other threads write with the identical value). That argument needs every branch stored in m.body_branches to be
+  the COMPLETE ancestor chain. Checked in put_model: the list that becomes m.body_branches is extended with the loop
+  variable of `for branch in branches` itself - not with a filtered / reassigned copy - and `branches` is built by a
+  comprehension over a (recursive) ancestor-chain function."""
+  import ast
+
+  fi = db.sm.func("io.put_model")
+  parents = {}
+  for n_ in ast.walk(fi.node):
+    for c in ast.iter_child_nodes(n_):
+      parents[c] = n_
+  target = None
+  for node in ast.walk(fi.node):
+    if isinstance(node, ast.Assign) and any(isinstance(t, ast.Attribute) and t.attr == "body_branches" for t in node.targets):
+      names = [x.id for x in ast.walk(node.value) if isinstance(x, ast.Name) and x.id not in ("np", "int")]
+      target = names[0] if names else None
+  if target is None:
+    res.error("anchor vanished: assignment of m.body_branches in io.put_model")
+    return 0
+  n = 0
+  found = False
+  for node in ast.walk(fi.node):
+    if isinstance(node, ast.Call) and isinstance(node.func, ast.Attribute) and node.func.attr in ("extend", "append") and isinstance(node.func.value, ast.Name) and node.func.value.id == target:
+      found = True
+      n += 1
+      arg = node.args[0] if node.args else None
+      loop = node
+      while loop in parents and not isinstance(loop, ast.For):
+        loop = parents[loop]
+      ok = isinstance(arg, ast.Name) and isinstance(loop, ast.For) and isinstance(loop.target, ast.Name) and loop.target.id == arg.id
+      reassigned = False
+      if ok:
+        for x in ast.walk(loop):
+          if isinstance(x, (ast.Assign, ast.AugAssign)):
+            tg = x.targets if isinstance(x, ast.Assign) else [x.target]
+            if any(isinstance(t, ast.Name) and t.id == arg.id for t in tg):
+              reassigned = True
+      res.ob(
+        ok and not reassigned,
+        "put_model|body_branches|complete-chains",
+        Finding(
+          "R-RACE.8",
+          "io.put_model|body_branches|branch-not-appended-whole",
+          f"m.body_branches is built from `{ast.unparse(arg) if arg is not None else '?'}`"
+          + (" after the loop variable was reassigned inside the loop" if reassigned else "")
+          + ": the branch kernels (_kinematics_branch, _comvel_branch, _cacc_branch) are schedule-independent only if every branch is the complete root-to-leaf chain, so that no thread reads a parent cell that only another thread of the same launch writes",
+          f"{fi.file}:{node.lineno}",
+        ),
+      )
+  if not found:
+    res.error("anchor vanished: construction of the body_branches list in io.put_model")
+  return n
